@@ -352,3 +352,17 @@ class node_locate(ContractBase):
     def ensures(c):
         n = c.sk('n', NODE)
         return {'located': c.result[n] == And(reach(c['self'], n), tag(c.old, n) == c['name'])}
+
+# ---------------------------------------------------------------------------- hooks that several models extend
+W.binop_hooks = []
+
+
+def _user_binop(ex, op, a, b, line):
+    for h in W.binop_hooks:
+        r = h(ex, op, a, b, line)
+        if r is not None:
+            return r
+    return None
+
+
+W.user_binop = _user_binop
